@@ -103,10 +103,15 @@ def job_exec(args):
             argv, npulses = spec['argv'], spec.get('npulses', 10)
             sides = spec['sides']
             hashseeds = spec['hashseeds']
+            sib_argv = spec.get('sib_argv')
         else:
             argv, m = X.gen_cmdline(rng, env=spec.get('env'), kinds=spec.get('kinds'), want=spec.get('want', ()),
                                     sweep=spec.get('sweep'))
             npulses = m.min_pulses() + 2 * len(m.geo)
+            try:
+                sib_argv = X.sibling_cmdline(rng, argv, m)
+            except Exception:
+                sib_argv = None
             sides = [gen.env_side(rng, True, 'hist'), gen.env_side(rng, True, 'orac'),
                      gen.env_side(rng, True, 'hist')]
             sides[2]['hash']['mode'] = 'perm'
@@ -118,11 +123,25 @@ def job_exec(args):
         # interpreter flags are part of how a process is started: -O strips
         # asserts, -OO also docstrings, -X utf8 changes the default encoding
         flagsets = [(), ('-O',), ('-OO', '-X', 'utf8')]
+        # the fresh interpreters run one after the other on one simulated
+        # machine (one private working / temporary / home directory): the
+        # second finds what the first left, and between the second and the
+        # third the user runs a sibling model there
+        import tempfile as _tf
+        import shutil as _sh
+        mroot = _tf.mkdtemp(prefix='machine', dir=scratch)
         for i, (side, hs) in enumerate(zip(sides, hashseeds)):
             fl = flagsets[i % 3]
+            if i == 2 and sib_argv:
+                try:
+                    X.exec_sim(REPO, sib_argv, side, hs, rng, scratch, npulses, pyflags=fl, root=mroot)
+                    S.fired('sibling_run_between')
+                except Exception:
+                    pass
             runs.append(('exec hashseed=%d hash=%s flags=%s' % (hs, side['hash']['mode'], ' '.join(fl) or '-'),
                          X.exec_sim(REPO, argv, side, hs, rng, scratch, npulses,
-                                    disk={'opt.txt': 'STALE\n' * 200}, pyflags=fl)))
+                                    disk={'opt.txt': 'STALE\n' * 200} if i == 0 else None, pyflags=fl, root=mroot)))
+        _sh.rmtree(mroot, ignore_errors=True)
         if spec.get('real'):
             # what the three standard streams are connected to is part of a
             # process's circumstances: all pipes; stdout on a terminal;
@@ -131,12 +150,20 @@ def job_exec(args):
                         ('real tty', dict(out_tty=True), True),
                         ('real stderr-tty', dict(out_tty=False, err_tty=True, in_tty=True), False),
                         ('real all-tty', dict(out_tty=True, err_tty=True, in_tty=True), False)]
-            for name, streams, opt in variants:
+            # ... one after the other in one directory that starts empty:
+            # the second run finds the files of the first, and before the
+            # third a sibling model is run there
+            wd = _tf.mkdtemp(prefix='used', dir=scratch)
+            for vi, (name, streams, opt) in enumerate(variants):
+                if vi == 2 and sib_argv:
+                    X.exec_real(REPO, sib_argv, rng.randrange(1, 4294967295), rng, scratch, workdir=wd)
+                    S.fired('sibling_run_between')
                 r = X.exec_real(REPO, argv, rng.randrange(1, 4294967295), rng, scratch,
-                                streams=streams, optimize=opt)
+                                streams=streams, optimize=opt, workdir=wd)
                 if ref['outcome'] == 'rc:23' and r['outcome'] == 'ok':
                     r['outcome'] = 'rc:23'      # __main__ ignores main()'s return value
                 runs.append((name, r))
+            _sh.rmtree(wd, ignore_errors=True)
         viol = []
         for name, r in runs[1:]:
             if ref['outcome'] == 'raise:AssertionError' and ('-O' in name or name == 'real tty'):
@@ -160,7 +187,7 @@ def job_exec(args):
         return dict(ok=True, violations=viol, runs=len(runs) - 1, real=4 if spec.get('real') else 0,
                     faults=dict(S.FAULTS), digest=h, outcome=ref['outcome'],
                     plan=dict(kind='exec', seed=spec['seed'], argv=argv, npulses=npulses, sides=sides,
-                              hashseeds=hashseeds, real=bool(spec.get('real'))),
+                              hashseeds=hashseeds, real=bool(spec.get('real')), sib_argv=sib_argv),
                     wall=time.time() - t0)
     except Exception:
         return dict(ok=False, error=traceback.format_exc(), payload=repr(spec)[:500])
